@@ -509,8 +509,9 @@ var _ = sort.Ints
 
 const knownEncoding = "cff-subset-encoding-not-contiguous"
 
-// TestC10KnownEncoding is the committed minimal reproducer of the known
-// finding cff-subset-encoding-not-contiguous.
+// TestC10KnownEncoding is the committed minimal reproducer of the former
+// finding cff-subset-encoding-not-contiguous (repaired in the library; kept
+// as a regression test, and reported again should it return).
 func TestC10KnownEncoding(t *testing.T) {
 	mk := func(name string) *cff.Glyph {
 		g := cff.NewGlyph(name, 500)
